@@ -25,8 +25,12 @@ InDomain(in, obs) ==
 Expected(in) == LET e == Norm(in.ast) p == PathsOf(in) IN
                 SelectSeq([k \in DOMAIN p |-> k], LAMBDA k : InLang(e, p[k], in.icase))
 
-Conforms(in, obs) == "panic" \notin DOMAIN obs /\ "exit" \notin DOMAIN obs /\ obs.m = Expected(in)
-Describe(in) == [m |-> Expected(in)]
+ExpectedWith(in, ic) == LET e == Norm(in.ast) p == PathsOf(in) IN
+                       SelectSeq([k \in DOMAIN p |-> k], LAMBDA k : InLang(e, p[k], ic))
+\* -regex P and -iregex P side by side in one expression: each with its own letter-case rule
+BothOK(in, obs) == "m1" \in DOMAIN obs => obs.m1 = ExpectedWith(in, in.icase) /\ obs.m2 = ExpectedWith(in, ~in.icase)
+Conforms(in, obs) == "panic" \notin DOMAIN obs /\ "exit" \notin DOMAIN obs /\ obs.m = Expected(in) /\ BothOK(in, obs)
+Describe(in) == [m |-> Expected(in), m1 |-> ExpectedWith(in, in.icase), m2 |-> ExpectedWith(in, ~in.icase)]
 
 Beyond(in) == FALSE
 INSTANCE TraceCheck
